@@ -67,7 +67,7 @@ def make_specs(ctx: Ctx, n):
             plan = [{"op": "simulate", "target": "simulate", "init": init, "seed": rng.randrange(10**6), "vsrc": "given",
                      "arbitrary": arb, "int_init": int_init}]
             kind = "arbitrary arrays"
-        specs.append(mk_spec(i, m, ["c02"], plan, label=f"{label}; {kind}"))
+        specs.append(mk_spec(i, m, ["c02"], plan, label=f"{label}; {kind}" + ("; float64" if i % 5 == 4 else ""), x64=i % 5 == 4))
     return specs
 
 
